@@ -449,7 +449,7 @@ func (obj DenseReal64Vector) ITERATOR_FROM(i int) *DenseReal64VectorIterator {
   return &r
 }
 func (obj DenseReal64Vector) JOINT_ITERATOR(b ConstVector) *DenseReal64VectorJointIterator {
-  r := DenseReal64VectorJointIterator{obj.ITERATOR(), b.ConstIterator(), -1, nil, nil}
+  r := DenseReal64VectorJointIterator{obj.ITERATOR(), b.ConstIterator(), -1, nil, nil, false}
   r.Next()
   return &r
 }
@@ -505,13 +505,13 @@ type DenseReal64VectorJointIterator struct {
   idx int
   s1 *Real64
   s2 ConstScalar
+  ok bool
 }
 func (obj *DenseReal64VectorJointIterator) Index() int {
   return obj.idx
 }
 func (obj *DenseReal64VectorJointIterator) Ok() bool {
-  return !(obj.s1 == nil || obj.s1.GetFloat64() == 0.0) ||
-         !(obj.s2 == nil || obj.s2.GetFloat64() == 0.0)
+  return obj.ok
 }
 func (obj *DenseReal64VectorJointIterator) Next() {
   ok1 := obj.it1.Ok()
@@ -532,6 +532,9 @@ func (obj *DenseReal64VectorJointIterator) Next() {
       obj.s2 = obj.it2.GetConst()
     }
   }
+  // the iteration ends when no iterator delivered an element, zero
+  // elements must not terminate it
+  obj.ok = obj.s1 != nil || obj.s2 != nil
   if obj.s1 != nil {
     obj.it1.Next()
   }
@@ -564,6 +567,7 @@ func (obj *DenseReal64VectorJointIterator) Clone() *DenseReal64VectorJointIterat
   r.idx = obj.idx
   r.s1 = obj.s1
   r.s2 = obj.s2
+  r.ok = obj.ok
   return &r
 }
 func (obj *DenseReal64VectorJointIterator) CloneConstJointIterator() VectorConstJointIterator {
